@@ -350,14 +350,14 @@ pub fn run(cfg: &Cfg, rep: &mut Report) {
     for u in &unmapped {
         rep.violation(format!("C06:unmapped-method:{}", u), format!("Builder method {} does not correspond to any opcode by the naming rule", u), Json::obj().set("stage", "mapping"));
     }
-    let reps = cfg.n(6, 24);
+    let reps = cfg.n(6, 200);
     let em = &emitting;
     run_stage(cfg, rep, "per-method", emitting.len() as u64 * reps, |idx, rng, r| {
         let sem = &sems[em[(idx % em.len() as u64) as usize]];
         let rp = || crate::util::replay_ref(cfg, "per-method", idx);
         per_method(sem, rng, r, &rp, (idx / em.len() as u64) % 2 == 1);
     });
-    let n = cfg.n(8_000, 60_000);
+    let n = cfg.n(8_000, 2_000_000);
     run_stage(cfg, rep, "histories", n, |idx, rng, r| {
         let rp = || crate::util::replay_ref(cfg, "histories", idx);
         let cover = (idx % sems.len() as u64) as usize;
